@@ -605,6 +605,23 @@ Section StepP.
     rewrite (Pnd_ne n Hne). apply (lp_unreg _ _ L n Hg Hv).
   Qed.
 
+  (* the owed set across the step *)
+  Lemma step_frameP :
+    (forall x, inP s (m :: R) x = true -> x <> m -> inP s' R x = true) /\
+    (forall x, inP s' R x = true ->
+       inP s (m :: R) x = true \/ (runPostB s m s' None /\ x ∈ children (nd s m) /\ owedC s' x = true)) /\
+    (inP s' R m = true -> inHeap s m = true) /\
+    (forall x, inHeap s' x = true -> inHeap s x = true \/ x ∈ children (nd s m)).
+  Proof.
+    split; [exact inP_keep|]. split; [exact inP'_cases|]. split.
+    - intros Hm. unfold inP in Hm. rewrite (bool_decide_eq_false_2 _ PmR), andb_false_l, orb_false_r in Hm.
+      apply (inHeap_iff0 s' m I') in Hm. destruct (Pnewmem m Hm) as [Hq|(_ & Hc & _)].
+      + apply (inHeap_iff0 s m I), Hq.
+      + destruct (Pchild_of_m m Hc) as [Hx _]. congruence.
+    - intros x Hx. apply (inHeap_iff0 s' x I') in Hx. destruct (Pnewmem x Hx) as [Hq|(_ & Hc & _)]; [left|right; exact Hc].
+      apply (inHeap_iff0 s x I), Hq.
+  Qed.
+
   Lemma step_LInvP : LInvP s' R.
   Proof.
     constructor.
